@@ -52,9 +52,9 @@ ROTATES = [0, 90, 180, 270, -90, -270, 360, 450, 810, -450, -180, 720]
 def minimums(tier: str) -> Dict[str, int]:
     if tier == "quick":
         return {"evaluations": 1500, "distinct": 700, "pages_checked": 6000, "glyphs_checked": 20000, "selections_checked": 600,
-                "cyclic_docs": 60, "inherited_attr_pages": 2000, "seen:rotate_values": 10}
+                "cyclic_docs": 60, "inherited_attr_pages": 2000, "seen:rotate_values": 10, "rotation_option_pages": 1500}
     return {"evaluations": 30000, "distinct": 15000, "pages_checked": 150000, "glyphs_checked": 500000, "selections_checked": 12000,
-            "cyclic_docs": 1500, "inherited_attr_pages": 40000, "seen:rotate_values": 12}
+            "cyclic_docs": 1500, "inherited_attr_pages": 40000, "seen:rotate_values": 12, "rotation_option_pages": 30000}
 
 
 def shards(tier: str, seed: int) -> List[Dict[str, Any]]:
@@ -228,8 +228,9 @@ def build_doc(rng: random.Random, root: Node, order_for_content: List[Tuple[Node
         d: Dict[str, Any] = {}
         if "MediaBox" in n.attrs:
             mb = n.attrs["MediaBox"]
-            if revbox_nid == n.nid:
-                mb = [mb[2], mb[3], mb[0], mb[1]]
+            if revbox_nid == n.nid:   # any two diagonally opposite corners (ISO 32000-1 7.9.5)
+                how = rng.choice(["both", "x", "y"])
+                mb = {"both": [mb[2], mb[3], mb[0], mb[1]], "x": [mb[2], mb[1], mb[0], mb[3]], "y": [mb[0], mb[3], mb[2], mb[1]]}[how]
             d["MediaBox"] = box(mb)
         if "CropBox" in n.attrs:
             d["CropBox"] = box(n.attrs["CropBox"])
@@ -332,6 +333,32 @@ def observe_pages(data: bytes, via: str) -> List[Dict[str, Any]]:
     if len(lts) != len(pages):
         res.append({"count_mismatch": (len(pages), len(lts))})
     return res
+
+
+def check_rotation_option(rec, data: bytes, ref_pages, rotation: int) -> List[Tuple[str, str]]:
+    """extract_text_to_fp(rotation=r) turns every page by r in addition to its own Rotate: the page boxes in the XML output
+    must be those of Rotate + r reduced to 0-359."""
+    import re
+    from pdfminer.high_level import extract_text_to_fp
+
+    out = io.BytesIO()
+    try:
+        extract_text_to_fp(io.BytesIO(data), out, output_type="xml", codec="utf-8", rotation=rotation, laparams=None)
+    except Exception as e:  # noqa: BLE001
+        return [("rotation_option:exception:%s" % type(e).__name__, "rotation=%d: %s: %s" % (rotation, type(e).__name__, e))]
+    # (the rotate attribute of <page> is LTPage.rotate, which the converter never sets: only the box is compared)
+    got = re.findall(r'<page id="\d+" bbox="([-0-9.,]+)"', out.getvalue().decode("utf-8"))
+    exp = []
+    for n, eff in ref_pages:
+        bb = expected_page_bbox(eff["MediaBox"], eff.get("Rotate", 0) + rotation)
+        exp.append("%.3f,%.3f,%.3f,%.3f" % tuple(float(c) for c in bb))
+    rec.count("rotation_option_pages", len(exp))
+    if got != exp:
+        i = next((k for k, (g, e) in enumerate(zip(got, exp)) if g != e), min(len(got), len(exp)))
+        return [("rotation_option", "rotation=%d: page %d of %d: got %r expected %r (Rotate=%r)" % (
+            rotation, i, len(exp), got[i] if i < len(got) else None, exp[i] if i < len(exp) else None,
+            ref_pages[i][1].get("Rotate", 0) if i < len(ref_pages) else None))]
+    return []
 
 
 def check_tree_doc(rec, data: bytes, ref_pages: List[Tuple[Node, Dict[str, Any]]], objid: Dict[int, int], via: str,
@@ -509,6 +536,11 @@ def run_shard(spec: Dict[str, Any], rec) -> None:
                 for key, detail in fails:
                     rec.fail(key, {"seed_str": s, "tier": tier, "kind": kind, "via": via}, detail)
                 rec.case(None, False)
+            if kind == "tree" and i % 2 == 0:
+                rot = rng.choice([90, 180, 270, 360, 450, -90])
+                for key, detail in check_rotation_option(rec, data, ref_pages, rot):
+                    rec.fail(key, {"seed_str": s, "tier": tier, "kind": kind, "rotation": rot}, detail)
+                rec.case(None, False)
             inherited = any(a not in n.attrs for n, eff in ref_pages for a in eff)
             nontriv = depth >= 3 or inherited or kind != "tree" or any(eff.get("Rotate", 0) % 360 for _, eff in ref_pages)
             rec.case(chash(data), nontriv)
@@ -564,6 +596,8 @@ def replay(case: Dict[str, Any]) -> List[Tuple[str, str]]:
         root, ref_pages, data, objid, depth = make_tree_case(case["seed_str"], case.get("tier", "quick"), cyclic=(kind == "cyclic"), revbox=(kind == "revbox"))
         tag = "mediabox_reversed_corners" if kind == "revbox" else None
         budget = 400000 + 60000 * len(all_nodes(root)) if kind == "cyclic" else None
+        if "rotation" in case:
+            return check_rotation_option(rec, data, ref_pages, case["rotation"])
         return check_tree_doc(rec, data, ref_pages, objid, case.get("via", "aggregator"), budget, tag)
     n = case["n"]
     data, objids = build_flat_doc(n)
